@@ -19,7 +19,8 @@ Proof.
   - apply exec_instr_good; assumption.
 Qed.
 
-From Quiver Require Export heap.HeapExec heap.HeapTransfer.
+From Quiver Require Export heap.HeapExec heap.HeapTransfer heap.HeapVmFix heap.HeapSpawnFix.
+Local Open Scope nat_scope.
 
 (* Executor::step of the repaired code, any quantum q, any process, any inputs: the exact count
    holds again when the time slice ends, and every slot reachable before and after keeps its bytes
